@@ -51,7 +51,15 @@ MANIFEST_NOTE = ("Partial: MPI itself is trusted (a transfer moves the typemap's
                  "rests on the translator (type/op tables, user-op registration, owner of the static storage of every lazily "
                  "created handle, every body of the sequential stand-in, R4: the construction code of the six struct/contiguous "
                  "datatypes and the MPI call of each of the 31 wrapper overloads of Communication<MPI_Comm>; the cell-level "
-                 "offsets/sizes at which the driver instantiates the datatypes, MPIData/MPIFuture and MPIPack remain hand-modelled) and "
+                 "offsets/sizes at which the driver instantiates the datatypes, MPIData/MPIFuture and MPIPack remain hand-modelled; "
+                 "R5: the translator compares meanings, not spellings - locals and parameters are followed by what they denote "
+                 "(renaming, const, this->, hoisted const locals, a new local for `a -= b`, reordered independent statements are "
+                 "invisible), `create on first use` may be an if-block or a guard clause, the element loop of the user-op callback "
+                 "and the copy loops of the stand-in may be index loops, pointer walks, std::copy / std::copy_n or count-down walks, "
+                 "index sums are put in a canonical order, `(me==root)*x` = `me==root ? x : 0`, rrecv's status pointer may be "
+                 "defaulted by assignment or by a conditional expression; a spelling outside these classes (a private helper "
+                 "function, a datatype built in a data-dependent loop, a branch in a wrapper) still raises the alarm "
+                 "`no-failing-input-found` although the property may hold) and "
                  "on the differential runs (P<=7, lengths <=5, reductions with user functors beyond 10 kB per contribution so that "
                  "MPI's long-message algorithms run).  The sequential stand-in copies whole objects where MPI copies "
                  "only the communicated members (IndexPair, ParallelLocalIndex): agreement is claimed and checked on the "
@@ -101,7 +109,11 @@ ASSUMPTIONS = [
     "inverts MPI_Pack, delivery is reliable and pairwise FIFO",
     "the Lean model lean/DuneVerif/Model/C07.lean is hand-written at cell level (one cell per scalar member); the type and "
     "op tables, the user-op registration, the storage of the lazily created handles, the bodies of the sequential stand-in, the construction code of the datatypes and the MPI call of every wrapper of Communication<MPI_Comm> are re-translated from the sources on "
-    "every run (lean/DuneVerif/Gen/C07.lean); the rest of its fidelity to mpicommunication.hh / mpipack.hh / mpidata.hh / "
+    "every run (lean/DuneVerif/Gen/C07.lean; R5: modulo renaming of locals / parameters / data members, const, this->, guard "
+    "clause vs if-block, index loop vs pointer walk vs std::copy(_n), hoisted const locals, commuted sums and factors, "
+    "`(me==root)*x` vs `me==root ? x : 0`; roles of int parameters (root, tag, peer) are taken from their position in the "
+    "public signature; negative element counts are outside the quantifier, so `i != n` and `i < n` are identified); "
+    "the rest of its fidelity to mpicommunication.hh / mpipack.hh / mpidata.hh / "
     "mpitraits.hh rests on this differential run",
     "reductions are exercised without signed overflow (sums bounded by MAX/8 per rank etc.); floating-point types hold "
     "integers small enough to be exact; unsigned long operands of min/max stay below 2^63 (Open MPI bug, see note)",
@@ -119,7 +131,10 @@ TRUSTED = ["mpicxx/libstdc++ (-O1 -flto), ASan/UBSan, Open MPI 4.1", "harness/mp
            "static data member / function-local static / reference to a variable (template); R4: the statement grammars of the two symbolic "
            "executors - declarations, MPI_Get_address pairs / offsetof, MPI_Type_contiguous/create_struct/create_resized/commit/free; "
            "MPIData/MPIFuture views, local ints as products/quotients, one MPI call or one delegation per wrapper - and the canonical "
-           "alphabetical order given to struct members)"]
+           "alphabetical order given to struct members; R5: the normalisations listed in MANIFEST_NOTE - each is an equivalence of C++ "
+           "spellings argued in design_notes/C07.md `Round five`, and each has negative tests there (a pointer that is dereferenced "
+           "but not advanced, a bound other than *len, a swapped difference, a short index loop, a negated guard, a status pointer "
+           "used before it is defaulted ... fail loudly))"]
 CORPUS_TIMEOUT = 600
 
 
